@@ -18,8 +18,10 @@ LEVEL = "fault_enumeration"
 ENGINE = "crashfs"
 PREIMPORT = ("pharmpy.modeling", "pharmpy.workflows", "pharmpy.tools")
 TECHNIQUE = ("exhaustive crash-point enumeration: every prefix of the recorded file-system operation history of a workload, "
-             "with torn variants of each data write, is materialised and recovered; plus exhaustive bounded operation sequences "
-             "against a reference model")
+             "with torn variants of each data write, is materialised and recovered; exhaustive bounded operation sequences "
+             "against a reference model; stateless schedule exploration (iterative preemption bounding) of two concurrent "
+             "store/retrieve/log/annotation operations of the real context code, scheduling points at every lock operation and "
+             "every file-system call below the root")
 LEVEL_TEXT = (
     "For each crash-enumerated workload every mutating file-system operation is a crash point (no sampling); each distinct "
     "resulting tree is reopened with fresh database/context objects and the atomicity/durability oracle is evaluated.  "
@@ -29,20 +31,29 @@ LEVEL_NOTE = (
     "trusted: vlib/crashfs.py interposition (open/io.open in write modes, os.open(O_CREAT), mkdir, unlink, rmdir, rename, replace, "
     "symlink) - the operation list it records for a store is printed in the evidence samples; crash model = process death "
     "(completed calls persist, in-flight data write torn, user-space buffers lost, no reordering); file data is modelled as "
-    "one raw write at close()"
+    "one raw write at close(); schedule pass: vlib/schedx.py + the simulated fcntl kernel (validated against the real kernel by "
+    "C15), one private copy of pharmpy's lock.py per simulated process, threads interleave only at lock operations and at "
+    "file-system calls below the root (mutating and reading); what runs between two such points shares no state"
 )
 RULE = (
     "workloads over models m1, m2 (same dataset as m1, other initial estimate), m3 (other dataset); crash states = tree before "
     "each mutating FS operation + torn data writes {half, all-but-one byte}, deduplicated by tree digest; a crash state is "
-    "non-trivial when at least one API call was in flight or acknowledged before it; evaluations = recovery runs"
+    "non-trivial when at least one API call was in flight or acknowledged before it; evaluations = recovery runs; a schedule "
+    "(= one complete execution of a two-thread program under the cooperative scheduler) counts as one state, its scheduling "
+    "points as transitions; oracle per schedule: no deadlock, every acknowledged store retrievable and equivalent afterwards "
+    "(fresh objects), a concurrent reader obtained a complete entry or a refusal, log rows complete and in per-thread order"
 )
 ASSUMPTIONS = [
     "process death crash model without block reordering below a completed system call",
     "equivalence of entries = equal name, description, parameters, random variables, statements, dataset values",
     "re-storing the model whose own transaction crashed may be refused (PendingTransactionError is documented); only other models must be storable",
+    "schedule pass: every thread has opened the context before the program starts; a reader may be refused with KeyError, "
+    "PendingTransactionError or FileNotFoundError while the entry is not committed",
 ]
-BOUNDS = {"quick": "crash enumeration of 3 workloads (<= 4 operations); fidelity sequences of length <= 2 over 9 operations + adversarial strings",
-          "thorough": "crash enumeration of 8 workloads (<= 5 operations); fidelity sequences of length <= 3"}
+BOUNDS = {"quick": "crash enumeration of 3 workloads (<= 4 operations); fidelity sequences of length <= 2 over 9 operations + adversarial strings; "
+                   "schedules: 7 two-thread programs (1 or 2 simulated processes), every schedule with <= 1 preemption",
+          "thorough": "crash enumeration of 8 workloads (<= 5 operations); fidelity sequences of length <= 3; schedules: 10 programs with <= 1 "
+                      "preemption, 2 programs with <= 2 preemptions"}
 
 STRINGS = ["a", "", "NA", "a,b", 'q"q', "two\nlines", " lead", "é", "x;y", "null", "1e5", "tab\there"]
 
@@ -365,6 +376,18 @@ def recover_and_check(workload, state, root):
                 fails.append(f"{tag}: {mid} stored afterwards is not retrieved intact: {'; '.join(diffs)}")
         except BaseException as e:
             fails.append(f"{tag}: {mid} stored afterwards cannot be retrieved: {type(e).__name__}: {str(e)[:120]}")
+    # a reader that asks the database for the key of the model whose store was in flight gets a refusal or the complete entry
+    if crashed_mid is not None:
+        from pharmpy.workflows.hashing import ModelHash
+
+        try:
+            me = ctx.model_database.retrieve_model_entry(ModelHash(M[crashed_mid]))
+        except BaseException:
+            me = None
+        if me is not None:
+            diffs = equivalent(me.model, M[crashed_mid], me.model.name, me.model.description)
+            if diffs:
+                fails.append(f"{tag}: a reader of the key of {crashed_mid} (store in flight at the crash) obtains a partial entry: {'; '.join(diffs)}")
     # the crashed model itself: storing it again may be refused (pending transaction), but if the store returns normally the
     # entry must then be complete - a torn first attempt must not be published as committed
     if crashed_mid is not None:
@@ -413,6 +436,77 @@ def _ref_apply(op, ref):
 
 # ------------------------------------------------------------------------------- runner API
 NPART = 12
+SCHED_SPLIT = {"quick": 4, "thorough": 16}
+
+
+def sched_programs(tier):
+    """(label, (prefix operations, ((pid, operations), ...)), preemption bound) - see vlib/c16_sched.py"""
+    inp = (("input", "m1"),)
+    st2 = ("store", "m2", "run2", "second")
+    st3 = ("store", "m3", "run3", "third")
+    st1 = ("store", "m1", "run1", "first")
+    P = []
+    # a reader of the name that is being stored: complete entry or refusal, never a partial one (two processes / two threads)
+    P.append(("store||retrieve 2 processes", (inp, ((0, (st2,)), (1, (("retrieve", "run2"),)))), 1))
+    P.append(("store||retrieve 1 process", (inp, ((0, (st2,)), (0, (("retrieve", "run2"),)))), 1))
+    # two writers whose models share a dataset that nobody stored before (dataset numbering / index)
+    P.append(("store||store shared new dataset", ((), ((0, (st1,)), (1, (st2,)))), 1))
+    # log rows of two writers; annotation read-modify-write against a store
+    P.append(("log||log", (inp, ((0, (("log", "error", "a,b"), ("log", "warning", 'q"q'))), (1, (("log", "error", "two\nlines"),)))), 1))
+    P.append(("annotation||store", ((st1,), ((0, (("annot", "run1", "x y"),)), (1, (st2,)))), 1))
+    # a reader that asks the database for the key (no name involved: only the PENDING protocol and the lock protect it)
+    P.append(("store||retrieve by key", (inp, ((0, (st2,)), (1, (("retrieve_key", "m2"),)))), 1))
+    # two writers with different new datasets (both must get their own dataN.csv)
+    P.append(("store||store two new datasets", ((), ((0, (st1,)), (1, (st3,)))), 1))
+    if tier == "thorough":
+        P.append(("store||store other dataset", (inp, ((0, (st2,)), (1, (st3,)))), 1))
+        P.append(("store||retrieve committed entry", (inp, ((0, (st2,)), (1, (("retrieve", "input"),)))), 1))
+        P.append(("store||store shared new dataset 1 process", ((), ((0, (st1,)), (0, (st2,)))), 1))
+        P.append(("store||retrieve 2 processes, 2 preemptions", (inp, ((0, (st2,)), (1, (("retrieve", "run2"),)))), 2))
+        P.append(("annotation||store, 2 preemptions", ((st1,), ((0, (("annot", "run1", "x y"),)), (1, (st2,)))), 2))
+    return P
+
+
+def run_sched_shard(shard, tier, res):
+    """iterative-preemption-bounded DFS over the schedules of one program; the first-level deviations are dealt round-robin
+    to SCHED_SPLIT[tier] shards (shard 0 also owns the default schedule)"""
+    from vlib import c16_sched, schedx
+
+    _, pi, k = shard
+    label, prog, bound = sched_programs(tier)[pi]
+    seen_outcomes = {}
+
+    def run_one(prefix):
+        r = c16_sched.run_program(prog, prefix)
+        x = r["sched"]
+        res["states"] += 1
+        res["evaluations"] += 1
+        res["schedules"] = res.get("schedules", 0) + 1
+        res["transitions"] += x.steps
+        res["traces_validated_against_impl"] = res.get("traces_validated_against_impl", 0) + 1
+        if len(x.points) > 0:
+            res["distinct_nontrivial"] += 1
+        key = "sched:" + r["outcome"]
+        res["outcomes"][key] = res["outcomes"].get(key, 0) + 1
+        seen_outcomes[r["outcome"]] = 1
+        for f in _one_per_class(r["failures"]):
+            res["violations"].append({"kind": "sched", "program": label, "prog": prog, "choices": list(x.choices),
+                                      "what": f"[{label}: schedule {''.join(map(str, x.choices))}] {f}", "class": "sched:" + _cls(f)})
+        return x
+
+    try:
+        root = c16_sched.run_program(prog, [])["sched"]
+        kids = schedx.children(root, bound)
+        mine = [c for i, c in enumerate(kids) if i % SCHED_SPLIT[tier] == k]
+        roots = ([[]] if k == 0 else []) + mine
+        if roots:
+            schedx.explore(run_one, bound, roots=roots)
+        res.setdefault("schedules_per_program", {})[label] = res.get("schedules", 0)
+        if k == 0:
+            res.setdefault("schedule_programs", {})[label] = (f"preemption bound {bound}; {len(root.points)} choice points and {root.steps} "
+                                                              f"scheduling points on the default schedule; {len(kids)} first-level deviations")
+    finally:
+        c16_sched.cleanup_templates()
 
 
 def shards(tier):
@@ -420,6 +514,9 @@ def shards(tier):
     for wi, w in enumerate(crash_workloads(tier)):
         for p in range(NPART):
             out.append(("crash", wi, p))
+    for pi, (label, prog, bound) in enumerate(sched_programs(tier)):
+        for k in range(SCHED_SPLIT[tier]):
+            out.append(("sched", pi, k))
     fw = fidelity_workloads(tier)
     n = 48
     k = (len(fw) + n - 1) // n
@@ -443,6 +540,9 @@ def run_shard(shard, tier):
 def _run_shard(shard, tier):
     res = {"states": 0, "transitions": 0, "evaluations": 0, "distinct_nontrivial": 0, "violations": [], "samples": [],
            "outcomes": {}, "crash_states": 0, "fidelity_workloads": 0}
+    if shard[0] == "sched":
+        run_sched_shard(shard, tier, res)
+        return res
     if shard[0] == "fidelity":
         fw = fidelity_workloads(tier)[shard[1]:shard[2]]
         for w in fw:
@@ -518,6 +618,13 @@ def _tup(x):
 
 
 def replay(w):
+    if w["kind"] == "sched":
+        from vlib import c16_sched
+
+        try:
+            return c16_sched.run_program(_tup(w["prog"]), list(w["choices"]))["failures"]
+        finally:
+            c16_sched.cleanup_templates()
     wl = [_tup(op) for op in w["workload"]]
     if w["kind"] == "fidelity":
         return run_fidelity(wl)
